@@ -406,6 +406,24 @@ k2("K158", "C18", [("segment/codec.go", "import (\n\t\"io\"\n)", "import (\n\t\"
    ("segment/encode.go", "\tcompressedPayload := bytes.NewBuffer(make([]byte, 0, len(segment.Payload.UncompressedData)))", "\tcompressedPayload := &c.compressed")],
   "write-free:(*segment.codec).encodeSegmentCompressed", "address of a codec field handed to a writer")
 
+# ---- rules added after the second round of seeded changes (client, compression)
+k("K159", "C08", "compression/lz4/lz4.go", "\t\treturn nil\n\t}\n}\n\nfunc (c Compressor) Decompress(", "\t\t_ = c.Compress(source, dest)\n\t\treturn nil\n\t}\n}\n\nfunc (c Compressor) Decompress(",
+  "drain-once:(compression/lz4.Compressor).CompressWithLength", "the drained source is read a second time")
+k("K160", "C09", "client/inflight.go", "\tif inFlight, found = h.inFlight[streamId]; !found {\n\t\terr = fmt.Errorf(\"%v: unknown stream id: %d\", h, streamId)\n\t}", "\tif inFlight, found = h.inFlight[streamId]; !found {\n\t\terr = fmt.Errorf(\"%v: unknown stream id: %d\", h, streamId)\n\t} else if inFlight.IsDone() {\n\t\terr = fmt.Errorf(\"%v: request closed\", inFlight)\n\t}",
+  "incoming-release:onIncomingFrameReceived path", "late final frame of a failed request never frees the id")
+k("K161", "C09", "client/client.go", "\t\toutgoing:     make(chan *frame.Frame, maxInFlight),", "\t\toutgoing:     make(chan *frame.Frame, maxPending),",
+  "enqueue-capacity:CqlClientConnection.outgoing", "queue smaller than the number of registrable requests")
+k("K162", "C10", "client/client.go", "\tfor payloadReader.Len() > 0 {\n\t\tif abort = c.readFrame(payloadReader); abort {\n\t\t\tbreak\n\t\t}\n\t}", "\tif payloadReader.Len() > 0 {\n\t\tabort = c.readFrame(payloadReader)\n\t}",
+  "segment-drain:(*client.CqlClientConnection).readSelfContainedSegment drain", "only the first envelope of a segment is delivered")
+k("K163", "C15", "client/server.go", "\tfor payloadReader.Len() > 0 {", "\tfor payloadReader.Len() > primitive.FrameHeaderLengthV3AndHigher {",
+  "accumulator:(*client.CqlServerConnection).readSelfContainedSegment drain", "trailing empty-body envelope dropped")
+k("K164", "C16", "client/client.go", "\tgo func() {\n\t\tabort := false\n\t\tfor !abort && !c.IsClosed() {\n\t\t\tif outgoing, ok := <-c.outgoing; !ok {", "\tgo func() {\n\t\tdefer c.waitGroup.Done()\n\t\tabort := false\n\t\tfor !abort && !c.IsClosed() {\n\t\t\tif outgoing, ok := <-c.outgoing; !ok {",
+  "waitgroup:(*client.CqlClientConnection).outgoingLoop$1", "deferred Done runs after abort -> Close -> Wait")
+k2("K165", "C18", [("segment/decode.go", "\t\"io\"\n", "\t\"io\"\n\t\"sync\"\n"),
+   ("segment/decode.go", "func (c *codec) decodeSegmentPayload(header *Header, source io.Reader) (*Payload, error) {", "var compressedPayloadPool = sync.Pool{New: func() interface{} { return make([]byte, MaxPayloadLength) }}\n\nfunc (c *codec) decodeSegmentPayload(header *Header, source io.Reader) (*Payload, error) {"),
+   ("segment/decode.go", "\tencodedPayload := make([]byte, length)\n", "\tscratch := compressedPayloadPool.Get().([]byte)\n\tdefer compressedPayloadPool.Put(scratch)\n\tencodedPayload := scratch[:length]\n")],
+  "pool-hygiene:(*segment.codec).decodeSegmentPayload Get#1 escape", "pooled payload buffer aliased by the returned segment")
+
 
 json.dump(C, open(os.path.join(os.path.dirname(os.path.abspath(__file__)), "controls.json"), "w"), indent=1)
 print(len(C), "controls")
